@@ -238,6 +238,25 @@ fn c09_target(w: &mut World, cfg: &RunCfg, ops: &[Op], i: usize) -> Res {
                     if again.as_ref() != Some(&live) {
                         viol!(w, "crash-redo", "crash-redo-reopen-differs", "{}: a replica reopened afterwards differs from the live one: {}", tag, again.as_ref().map(|a| diff_digest(&live, a)).unwrap_or_else(|| "open failed".into()));
                     }
+                    // the durable result includes what a peer obtains: a new replica that melds from
+                    // this one and refreshes sees the same state (the redone commit may rely on
+                    // objects of the pack the interrupted commit left behind)
+                    let pd = DiskRef::new(7);
+                    let ps = pd.store();
+                    let src = wc.replicas[r].live.as_ref().unwrap();
+                    let peer = guard(|| -> Result<Value, String> {
+                        let mut p = Melda::new(ps).map_err(|e| e.to_string())?;
+                        p.meld(src).map_err(|e| format!("meld: {}", e))?;
+                        p.refresh().map_err(|e| format!("refresh: {}", e))?;
+                        digest(&p).map_err(|c| c.text().to_string())
+                    });
+                    w.bump("enum.crash_redo_peer");
+                    match peer {
+                        Ok(Ok(pdg)) if pdg == live => {}
+                        Ok(Ok(pdg)) => viol!(w, "crash-redo", "crash-redo-peer-differs", "{}: a new replica that melds from this one and refreshes does not see its state: {}", tag, diff_digest(&live, &pdg)),
+                        Ok(Err(e)) => viol!(w, "crash-redo", "crash-redo-peer-failed", "{}: a new replica cannot meld from this one: {}", tag, e),
+                        Err(c) => viol!(w, "crash-redo", format!("crash-redo-peer-{}", c.class()), "{}: a new replica that melds from this one does not return: {}", tag, c.text()),
+                    }
                 }
             }
         }
@@ -508,6 +527,11 @@ fn c10(w: &mut World, _ops: &[Op]) -> Res {
     // live: an already opened replica whose packs are damaged afterwards must still never return
     // altered content (every read from a pack re-verifies the object digest)
     c10_live(w, &cfg, &items, &truth, &mut rng, thorough)?;
+    // a walk: items arrive, are damaged, deleted and restored under an open replica, with a refresh
+    // (sometimes a reload) after each step
+    for round in 0..(if thorough { 6 } else { 2 }) {
+        c10_walk(w, &cfg, &items, &truth, &mut rng, round, false)?;
+    }
     // in transit: a live replica holds a causally closed part; the rest arrives damaged, then refresh
     let st = RefState::from_items(&items);
     let mut heads: Vec<&String> = st.heads.iter().collect();
@@ -597,6 +621,177 @@ fn c10_live(w: &mut World, cfg: &RunCfg, items: &Items, truth: &BTreeMap<(String
                 }
             }
             disk.with(|d| d.map.get_mut(&p).unwrap()[pos] ^= 1 << bit);
+        }
+    }
+    Ok(())
+}
+
+/// Items arrive, are damaged, deleted and restored while a replica stays open. After each step the
+/// replica refreshes (one time in five: reloads). A block that starts to take effect in a refresh must
+/// be causally complete and intact in the storage as it is at that moment; values are never altered;
+/// whenever every item that was ever delivered is intact again, the replica shows exactly the state of
+/// its storage; at the end everything is delivered and restored and the full state must appear.
+fn c10_walk(w: &mut World, cfg: &RunCfg, items: &Items, truth: &BTreeMap<(String, String), Value>, rng: &mut Rng, round: usize, torn_only: bool) -> Res {
+    let keys: Vec<String> = items.keys().cloned().collect();
+    if keys.len() < 3 {
+        return Ok(());
+    }
+    // start without 1..3 items
+    let mut absent: BTreeSet<String> = BTreeSet::new();
+    for _ in 0..(1 + rng.below(3.min(keys.len() - 1))) {
+        absent.insert(rng.pick(&keys).clone());
+    }
+    let start: Items = items.iter().filter(|(k, _)| !absent.contains(*k)).map(|(k, v)| (k.clone(), v.clone())).collect();
+    let disk = DiskRef::from_items(start, cfg.list_seed ^ 0x12 ^ round as u64);
+    let store = disk.store();
+    let mut m = match guard(|| Melda::new(store).map_err(|e| e.to_string())) {
+        Ok(Ok(m)) => m,
+        _ => return Ok(()),
+    };
+    let full = RefState::from_items(items);
+    let applied_of = |m: &Melda| -> BTreeSet<String> { api::block_status(m).into_iter().filter(|(_, s)| s == "applied").map(|(k, _)| k).collect() };
+    let mut applied_prev = applied_of(&m);
+    let mut hurt: BTreeSet<String> = BTreeSet::new(); // delivered once, now damaged or deleted
+    let steps = 4 + rng.below(7);
+    let mut trail: Vec<String> = vec![];
+    for s in 0..=steps {
+        let last = s == steps;
+        if last {
+            disk.with(|d| d.map = items.clone());
+            absent.clear();
+            hurt.clear();
+            trail.push("everything delivered and restored".to_string());
+        } else {
+            let present_intact: Vec<String> = keys.iter().filter(|k| !absent.contains(*k) && !hurt.contains(*k)).cloned().collect();
+            let choice = rng.below(10);
+            if choice < 3 && !absent.is_empty() {
+                let k = rng.pick(&absent.iter().cloned().collect::<Vec<_>>()).clone();
+                disk.with(|d| d.map.insert(k.clone(), items[&k].clone()));
+                absent.remove(&k);
+                w.bump("fault.walk_deliver");
+                trail.push(format!("deliver {}", k));
+            } else if choice < 5 && !hurt.is_empty() {
+                let k = rng.pick(&hurt.iter().cloned().collect::<Vec<_>>()).clone();
+                disk.with(|d| d.map.insert(k.clone(), items[&k].clone()));
+                hurt.remove(&k);
+                w.bump("fault.walk_restore");
+                trail.push(format!("restore {}", k));
+            } else if torn_only {
+                // transit fault only: an item becomes visible before it is complete (torn copy)
+                if absent.is_empty() {
+                    continue;
+                }
+                let k = rng.pick(&absent.iter().cloned().collect::<Vec<_>>()).clone();
+                let len = rng.below(items[&k].len().max(1));
+                disk.with(|d| d.map.insert(k.clone(), items[&k][..len].to_vec()));
+                absent.remove(&k);
+                hurt.insert(k.clone());
+                w.bump("fault.walk_torn_arrival");
+                trail.push(format!("{} arrives torn ({} of {} bytes visible)", k, len, items[&k].len()));
+            } else if !present_intact.is_empty() {
+                let k = rng.pick(&present_intact).clone();
+                let n = items[&k].len();
+                match rng.below(3) {
+                    0 => {
+                        disk.with(|d| d.map.remove(&k));
+                        w.bump("fault.walk_delete");
+                        trail.push(format!("delete {}", k));
+                    }
+                    1 if n > 0 => {
+                        let (pos, bit) = (rng.below(n), rng.below(8) as u8);
+                        disk.with(|d| d.map.get_mut(&k).unwrap()[pos] ^= 1 << bit);
+                        w.bump("fault.walk_bitflip");
+                        trail.push(format!("flip bit {} of byte {} of {}", bit, pos, k));
+                    }
+                    _ => {
+                        let len = rng.below(n.max(1));
+                        disk.with(|d| d.map.get_mut(&k).unwrap().truncate(len));
+                        w.bump("fault.walk_truncate");
+                        trail.push(format!("truncate {} to {} bytes", k, len));
+                    }
+                }
+                hurt.insert(k);
+            } else {
+                continue;
+            }
+        }
+        let reload = !last && rng.chance(1, 5);
+        let call = if reload { "reload" } else { "refresh" };
+        let what = format!("a replica opened on {} of {} items, then [{}], then {}", keys.len() - absent.len().min(keys.len()), keys.len(), trail.join("; "), call);
+        w.bump("enum.damage_walk_steps");
+        let clean = hurt.is_empty();
+        match guard(|| if reload { m.reload().map_err(|e| e.to_string()) } else { m.refresh().map_err(|e| e.to_string()) }) {
+            Err(c) => viol!(w, "damaged-refresh-returns", format!("damage-walk-{}", c.class()), "{}: does not return: {}", what, c.text()),
+            Ok(Err(e)) => {
+                w.bump("probe.damage_walk_refresh_err");
+                if clean {
+                    viol!(w, "intact-refresh-succeeds", "damage-walk-refresh-err-on-intact-storage", "{}: every stored item is intact, yet {} fails: {}", what, call, e);
+                }
+                // what takes effect is judged at the next successful call
+            }
+            Ok(Ok(())) => {
+                let now = disk.items();
+                let st = RefState::from_items(&now);
+                let applied = applied_of(&m);
+                if reload {
+                    // everything is derived anew from the storage as it is
+                    for b in &applied {
+                        if !st.complete.contains(b) {
+                            viol!(w, "effect-only-if-intact", "damage-walk-reload-applied-incomplete-block", "{}: block {} takes effect although, in the storage as it is now, it is not intact and causally complete (block, ancestors, named packs, objects)", what, b);
+                        }
+                    }
+                } else {
+                    // what the replica verified and applied earlier stays; a block that starts to take
+                    // effect now needs its parents applied and the packs it names present and intact now
+                    for b in applied.difference(&applied_prev) {
+                        let blk = match full.blocks.get(b) {
+                            Some(x) => x,
+                            None => viol!(w, "effect-only-if-intact", "damage-walk-applied-unknown-block", "{}: block {} takes effect but no intact item of that name was ever stored", what, b),
+                        };
+                        if let Some(p) = blk.parents.iter().find(|p| !applied.contains(*p)) {
+                            viol!(w, "effect-only-if-intact", "damage-walk-applied-without-parent", "{}: block {} takes effect without its parent {}", what, b, p);
+                        }
+                        if let Some(p) = blk.packs.iter().find(|p| now.get(&format!("{}.pack", p)).map_or(true, |bytes| &sha_hex(bytes) != *p)) {
+                            viol!(w, "effect-only-if-intact", "damage-walk-applied-without-pack", "{}: block {} starts to take effect although the pack {} it names is, in the storage as it is now, missing or does not hash to its name", what, b, p);
+                        }
+                    }
+                }
+                if clean || reload {
+                    for b in &st.complete {
+                        if !applied.contains(b) {
+                            viol!(w, "restored-items-apply", "damage-walk-complete-block-held-back", "{}: block {} is intact and complete in storage but does not take effect", what, b);
+                        }
+                    }
+                }
+                applied_prev = applied;
+                for ((u, rev), tv) in truth {
+                    match guard(|| m.get_value(u, Some(rev)).ok()) {
+                        Ok(Some(v)) => {
+                            w.bump("probe.damage_value_checked");
+                            if &Value::Object(v.clone()) != tv {
+                                viol!(w, "no-altered-content", "damage-walk-altered-content", "{}: revision {} of {} now reads {} (stored: {})", what, rev, u, trunc(&Value::Object(v)), trunc(tv));
+                            }
+                        }
+                        Ok(None) => {}
+                        Err(c) => viol!(w, "damaged-read-returns", format!("damage-walk-value-{}", c.class()), "{}: get_value({}, {}) does not return: {}", what, u, rev, c.text()),
+                    }
+                }
+                if clean {
+                    w.bump("probe.damage_walk_clean_compared");
+                    let d = match digest(&m) {
+                        Ok(d) => d,
+                        Err(c) => viol!(w, "damaged-read-returns", format!("damage-walk-read-{}", c.class()), "{}: every stored item is intact, yet reading does not return: {}", what, c.text()),
+                    };
+                    let mut wx = World::new_empty(cfg.clone());
+                    wx.prop = w.prop.clone();
+                    wx.step = w.step;
+                    if let Err(Stop::Violation(mut v)) = wx.compare_with_ref(0, &d, &st, "damage-walk") {
+                        v.class = format!("damage-walk-{}", v.class);
+                        v.detail = format!("{}: {}", what, v.detail);
+                        return Err(Stop::Violation(v));
+                    }
+                }
+            }
         }
     }
     Ok(())
@@ -914,6 +1109,13 @@ fn c02(w: &mut World, _ops: &[Op]) -> Res {
         Some(d) if d.len() >= 3 => d.clone(),
         _ => return Ok(()),
     };
+    // files that become visible before they are complete (a torn copy) and are completed later: the
+    // refresh in between may fail or hold blocks back, the one after completion applies them
+    {
+        let truth = true_values(&items);
+        let mut rng = Rng::derive(cfg.seed, 0xC02A);
+        c10_walk(w, &cfg, &items, &truth, &mut rng, 0, true)?;
+    }
     let st = RefState::from_items(&items);
     // the k late files: walk back from the heads (blocks with their packs)
     let k = if thorough { 5 } else { 4 };
@@ -1007,7 +1209,7 @@ fn c14(w: &mut World, ops: &[Op]) -> Res {
                 w.bump("enum.c14_multihead_forks");
             }
             let heads = w.replicas[r].checkpoints[idx].heads.clone();
-            for o in [Op::ReloadUntil { r, sel: idx as u32 }, Op::Reload { r }] {
+            for o in [Op::ReloadUntil { r, sel: idx as u32, of: r, extra: 0 }, Op::Reload { r }] {
                 match w.exec(&o) {
                     Ok(()) => {}
                     Err(Stop::Violation(mut v)) => {
@@ -1016,6 +1218,36 @@ fn c14(w: &mut World, ops: &[Op]) -> Res {
                     }
                     Err(other) => return Err(other),
                 }
+            }
+        }
+    }
+    // a walk through time without returning to the present in between: consecutive travels to head
+    // sets in seeded order, those of other replicas (sibling branches) and requests with a redundant
+    // ancestor included; each must show exactly the state of its target, whatever was shown before
+    let nrep = w.replicas.len();
+    for r in 0..nrep.min(3) {
+        if w.replicas[r].live.is_none() {
+            continue;
+        }
+        let staged = { let m = w.replicas[r].live.as_ref().unwrap(); guard(|| m.has_staging()).unwrap_or(true) };
+        if staged {
+            continue;
+        }
+        let mut rng = Rng::derive(cfg.seed, 0xC14A + r as u64);
+        let mut targets: Vec<(usize, usize)> = (0..nrep).flat_map(|o| (0..w.replicas[o].checkpoints.len()).map(move |i| (o, i))).collect();
+        rng.shuffle(&mut targets);
+        targets.truncate(8);
+        let mut walk: Vec<Op> = targets.iter().map(|(o, i)| Op::ReloadUntil { r, sel: *i as u32, of: *o, extra: if rng.chance(1, 4) { 1 + rng.below(100) as u32 } else { 0 } }).collect();
+        walk.push(Op::Reload { r });
+        for (k, o) in walk.iter().enumerate() {
+            w.bump("enum.c14_walk_steps");
+            match w.exec(o) {
+                Ok(()) => {}
+                Err(Stop::Violation(mut v)) => {
+                    v.detail = format!("at the end of the history replica {} walks through {} head sets without reloading in between; step {} ({}): {}", r, walk.len() - 1, k + 1, o.brief(), v.detail);
+                    return Err(Stop::Violation(v));
+                }
+                Err(other) => return Err(other),
             }
         }
     }
